@@ -65,9 +65,11 @@ namespace occa {
   }
 
   memory& memory::swap(memory &m) {
-    modeMemory_t *modeMemory_ = modeMemory;
-    modeMemory   = m.modeMemory;
-    m.modeMemory = modeMemory_;
+    // Exchange through copies so that both handles are re-linked
+    // into the reference ring of the object they now refer to
+    memory tmp(*this);
+    *this = m;
+    m = tmp;
     return *this;
   }
 
